@@ -273,7 +273,11 @@ func (x *Engine) step(fr *Frame, st *State, ins ssa.Instruction, in map[*ssa.Bas
 	case *ssa.Go:
 		x.degrade("go statement in " + fr.fn.String())
 		x.abstracted("go statement")
-	case *ssa.Send, *ssa.Select, *ssa.MakeChan:
+	case *ssa.Send:
+		// the value is handed to another goroutine; nothing of this thread's state changes (what the receiver does
+		// with it is outside the thread-local model, like every other concurrent effect)
+		x.abstracted("channel send: no effect on this thread's state")
+	case *ssa.Select, *ssa.MakeChan:
 		x.degrade(fmt.Sprintf("channel operation in %s", fr.fn))
 		if v, ok := ins.(ssa.Value); ok {
 			fr.vals[v] = x.freshVal("ch", v.Type(), st)
